@@ -134,7 +134,7 @@ DEFAULT_CROP = [column("Crop", "%s", 8), column("HarvestYear", "%d", 6), column(
 
 
 def write_project(root, pname, cfg, rotation, daily=None, yearly=None, crop=None, raw_confs=None, rot_mode="contiguous", crop_csv=False,
-                  pfout=None, management=False, no_daily_conf=False, automan_rows=None):
+                  pfout=None, management=False, no_daily_conf=False, automan_rows=None, tillage=None):
     """rotation: [(crop, sow date|None, harvest date)]; the first entry is the previous crop (harvest = start)"""
     pdir = os.path.join(root, "project", pname)
     os.makedirs(pdir)
@@ -151,7 +151,8 @@ def write_project(root, pname, cfg, rotation, daily=None, yearly=None, crop=None
             keep.append("%-3s %s %s %s" % (code, sow1, sow2, har2) + sm[18:])
         open(os.path.join(pdir, "automan.txt"), "w").write("\n".join(keep) + "\n")
     open(os.path.join(pdir, "fert_%s.txt" % pname), "w").write("Field_ID  N   Frt date\nend\n")
-    open(os.path.join(pdir, "til_%s.txt" % pname), "w").write("Field_ID  Ti Typ date\n          cm\nend\n")
+    open(os.path.join(pdir, "til_%s.txt" % pname), "w").write("Field_ID  Ti Typ date\n          cm\n" + "".join(
+        "%-10s %2d %d   %s\n" % (FIELD, depth, typ, fdate(d, cfg.get("Dateformat", "DateDElong"))) for depth, typ, d in (tillage or [])) + "end\n")
     open(os.path.join(pdir, "irr_%s.txt" % pname), "w").write("Field_ID  Ir N03 date\n          mm mg/l \nend\n")
     c = dict(CONFIG_DEFAULT); c.update(cfg)
     if crop_csv:
